@@ -22,9 +22,9 @@ import (
 type HV struct{ Name, Value string }
 
 type LResp struct {
-	Status  int
-	Headers []HV // any letter case, names may repeat (multi-valued)
-	Body    []byte
+	Status    int
+	Headers   []HV // any letter case, names may repeat (multi-valued)
+	Body      []byte
 	DirectMap bool // build http.Header as a literal map (keys kept as given) instead of Header.Add
 }
 
@@ -48,8 +48,8 @@ type LBundle struct {
 	Sigs      *LSigs
 	// expectation for b1 variant sets
 	ExpectWriteError bool
-	MultiKey         bool              // some Variant-Key lists several keys (no byte fixpoint claimed)
-	Order            map[string][]int  // URL -> indices into Exchanges in expected read-back order
+	MultiKey         bool             // some Variant-Key lists several keys (no byte fixpoint claimed)
+	Order            map[string][]int // URL -> indices into Exchanges in expected read-back order
 }
 
 var headerNames = []string{"Content-Type", "content-length", "X-Foo", "x-BAR-1", "ETag", "cache-control", "Accept-Ranges", "LINK", "Vary", "x-a", "X-Long-Header-Name-For-Length-Class-Testing-0123456789", "Server-Timing"}
